@@ -74,7 +74,7 @@ class NsRun:
     def build(self):
         self.drive = vlib.build_driver(self.sc)
 
-    def generate(self, profile, maxlen, name, names3=False, workers=None):
+    def generate(self, profile, maxlen, name, names3=False, workers=None, impl=None):
         edges = self.sc.path("edges-%s.ndjson" % name)
         env = {"VERIF_MAXLEN": maxlen, "VERIF_PROFILE": profile, "VERIF_EDGES": edges}
         if names3:
@@ -95,6 +95,10 @@ class NsRun:
         key = target
         self.cov["edges_replayed"][key] = self.cov["edges_replayed"].get(key, 0) + st["Edges"] - st["Skipped"]
         self.cov["edges_conforming"][key] = self.cov["edges_conforming"].get(key, 0) + st["OK"]
+        if st.get("Explained"):
+            ex = self.cov.setdefault("edges_equal_to_an_open_deviation_outcome", {})
+            ex[key] = ex.get(key, 0) + st["Explained"]
+            self.kf_used |= {x for lab in st["Kf"] for x in lab.split("+")}
         if target == "osfs":
             # a kernel step that differs from the canonical outcome may still be one of the admissible strict
             # outcomes (directory batch order, the closed-handle corner): TLC decides with impl = "osfs"
